@@ -46,6 +46,9 @@ type Scn struct {
 	Prompt string `json:"prompt,omitempty"`
 	W      int    `json:"w"` // initial window width
 	Ops    []Op   `json:"ops"`
+	// Locks: lock-state bits (vaxis.ModCapsLock, vaxis.ModNumLock) carried by every key event of the scenario, the
+	// way a terminal speaking the kitty keyboard protocol reports keys typed while Caps Lock / Num Lock is on
+	Locks int `json:"locks,omitempty"`
 }
 
 // ---- keys -----------------------------------------------------------------
@@ -377,6 +380,16 @@ func Run(c *Ctx, wk *Worker, sc *Scn) (evs []trace.Ev, note string) {
 			evsIn = append(evsIn, k)
 		case op.Via == "key":
 			evsIn = append(evsIn, KeyOf(op.Key))
+		}
+		if sc.Locks != 0 {
+			for i, e := range evsIn {
+				if k, ok := e.(vaxis.Key); ok && k.EventType != vaxis.EventPaste {
+					k.Modifiers |= vaxis.ModifierMask(sc.Locks)
+					evsIn[i] = k
+				}
+			}
+		}
+		switch {
 		case op.Via == "call" && tf != nil:
 			switch op.K {
 			case "reset":
